@@ -7,7 +7,7 @@ R2 a golden ticket is accepted only through the true edge of GoldenTicket::valid
 R3 Transaction::validate: a false validate_routing_path reaches no `return true`
 """
 from .. import gate
-from ..expr import Chaser, call_name, has_call, has_field, show
+from ..expr import Chaser, call_name, has_call, has_field, show, walk
 from ..report import Finding, Result
 from ..paths import Explorer, describe_path
 from ._blockvalidate import CORE, BlockValidate
@@ -21,6 +21,7 @@ def run(prog, tier, extra=None):
     R2 = res.rule("C08.golden-ticket", "a carried golden ticket passes GoldenTicket::validate(prev.difficulty) re-targeted at prev.hash", floor=1)
     R5 = res.rule("C08.winner-first-match", "the winning transaction of the router lottery is the first one, in block order, whose cumulative fees reach the winning nolan", floor=1)
     R4 = res.rule("C08.halving", "routing work halves exactly len(path) - 1 times", floor=1)
+    R6 = res.rule("C08.work-misordered", "the required-work function answers with the impossible amount unless the block's timestamp is later than its parent's", floor=1)
     R3 = res.rule("C08.routing-path", "a false validate_routing_path rejects the transaction", floor=1)
     bv = BlockValidate(prog)
     b, ch = bv.body, bv.ch
@@ -97,6 +98,36 @@ def run(prog, tier, extra=None):
         else:
             res.sample({"rule": R2, "site": [b.loc(x) for x in gt["sites"]], "no_ticket_exits": len(no_gt), "states": states, "verdict": "must-pass holds"})
 
+    # R6: "required work falls as time since the parent passes" presupposes elapsed time = own - parent timestamp > 0. The work function
+    # is the only place that orders the two timestamps: every return that is not the impossible amount (>= 10^19 nolan, more than can
+    # exist) must lie behind an edge on which parent < own is established by comparing the two parameters themselves (not |a - b|).
+    wf = [b_ for b_ in prog.all_bodies() if b_.path.endswith("burnfee::BurnFee::return_routing_work_needed_to_produce_block_in_nolan")]
+    if not wf:
+        raise LookupError("BurnFee::return_routing_work_needed_to_produce_block_in_nolan not found")
+    wfb = wf[0]
+    wch = Chaser(wfb)
+    def _ts(e, word):
+        return any(y[0] == "param" and word in (y[2] or "") and "timestamp" in (y[2] or "") for y in walk(e)) and not any(y[0] in ("call", "via", "bin") for y in walk(e))
+    ordered = set()
+    for c in gate.order_edges(wfb, wch, lambda a, b_: _ts(a, "previous") and _ts(b_, "current")):
+        if c["op"] == "Lt":
+            ordered |= c["true_edges"]
+        elif c["op"] == "Ge":
+            ordered |= c["false_edges"]
+    impossible = {bb for bb, blk in enumerate(wfb.blocks) for st in blk["s"]
+                  if st[0] == "=" and st[1][0] == 0 and not st[1][1] and st[2][0] == "use" and st[2][1][0] == "k" and isinstance(st[2][1][1].get("v"), int) and st[2][1][1]["v"] >= 10 ** 19}
+    res.instance(R6)
+    r6 = wfb.reachable(0, deleted_edges=ordered, blocked=impossible)
+    esc = sorted(x for x in wfb.return_blocks() if x in r6)
+    # a return block reached only through an `impossible` assignment is blocked above; one shared return block needs the predecessor test
+    esc = [x for x in esc if any(p_ in r6 and p_ not in impossible for p_ in wfb.pred(x)) or x == 0]
+    if not ordered:
+        res.add(Finding(R6, "C08.work-misordered|no-order-test", "the required-work function never compares the parent's timestamp with the block's own: a block dated before its parent "
+                        "is measured by |difference| (or a wrapped difference) and can need little or no routing work", wfb.loc(0)))
+    elif esc:
+        res.add(Finding(R6, "C08.work-misordered|bypass", "the required-work function can return an ordinary amount without having established parent timestamp < own timestamp", wfb.loc(esc[0])))
+    else:
+        res.sample({"rule": R6, "ordered_edges": len(ordered), "impossible_returns": [wfb.loc(x) for x in sorted(impossible)], "verdict": "ordinary amounts only behind parent < own"})
     # R3
     tv = prog.body(CORE + "consensus::transaction::Transaction::validate")
     for s in gate.verdict_sites(tv, lambda n: n.endswith("Transaction::validate_routing_path")):
